@@ -249,9 +249,64 @@ func ruleSilent(c *Ctx, a *tcpAnchors) {
 // searchLoops: functions that range over a SnapshotForClientIP result and call shadowsocks.Unpack in the loop.
 type searchLoop struct {
 	fn     *ssa.Function
-	unpack *ssa.Call
+	unpack *ssa.Call // the trial decryption as it appears in the loop: shadowsocks.Unpack itself, or a call of a wrapper around it
 	loop   *eng.Loop
 	snap   *ssa.Call // the SnapshotForClientIP call, or nil when the snapshot is a parameter
+	// inner is the Unpack call inside the wrapper (== unpack when there is no wrapper); keyArg / ctArg / errIdx describe the
+	// call in the loop: the key tried, the ciphertext handed over and the index of the error result
+	inner  *ssa.Call
+	keyArg ssa.Value
+	ctArg  ssa.Value
+	errIdx int
+}
+
+// unpackWrapper: w contains exactly one shadowsocks.Unpack call whose key is a parameter of w and every return of w hands
+// back that call's error. Returns the call and the parameter indices of key and ciphertext (-1: computed inside).
+func unpackWrapper(c *Ctx, w *ssa.Function) (inner *ssa.Call, keyIdx, ctIdx, errIdx int, ok bool) {
+	p := c.P
+	keyIdx, ctIdx = -1, -1
+	for _, cl := range eng.Calls(w) {
+		if call, isC := cl.(*ssa.Call); isC && eng.CalleeName(&call.Call) == "sdk/shadowsocks.Unpack" {
+			if inner != nil {
+				return nil, -1, -1, -1, false
+			}
+			inner = call
+		}
+	}
+	errIdx = errorResultIndex(w.Signature)
+	if inner == nil || errIdx < 0 || eng.InnermostLoop(eng.Loops(w), inner.Block()) != nil {
+		return nil, -1, -1, -1, false
+	}
+	for i, pa := range w.Params {
+		if p.Resolve(inner.Call.Args[2]) == ssa.Value(pa) {
+			keyIdx = i
+		}
+		if p.AnyFrom(inner.Call.Args[1], eng.OriginOpts{ThroughSlice: true, ThroughConvert: true}, func(v ssa.Value) bool { return v == ssa.Value(pa) }) {
+			ctIdx = i
+		}
+	}
+	if keyIdx < 0 {
+		return nil, -1, -1, -1, false
+	}
+	var uerr ssa.Value
+	for _, r := range *inner.Referrers() {
+		if ex, isEx := r.(*ssa.Extract); isEx && ex.Index == 1 {
+			uerr = ex
+		}
+	}
+	for _, r := range eng.Returns(w) {
+		if errIdx >= len(r.Results) || uerr == nil {
+			return nil, -1, -1, -1, false
+		}
+		rv := r.Results[errIdx]
+		if sv := p.ReachingStore(rv, r); sv != nil {
+			rv = sv
+		}
+		if g, _ := p.AllFrom(rv, eng.Plain, func(v ssa.Value) bool { return v == uerr }); !g {
+			return nil, -1, -1, -1, false
+		}
+	}
+	return inner, keyIdx, ctIdx, errIdx, true
 }
 
 func findSearchLoops(c *Ctx) []searchLoop {
@@ -277,7 +332,37 @@ func findSearchLoops(c *Ctx) []searchLoop {
 			if !fromElem {
 				continue
 			}
-			out = append(out, searchLoop{fn: f, unpack: call, loop: l})
+			out = append(out, searchLoop{fn: f, unpack: call, loop: l, inner: call, keyArg: call.Call.Args[2], ctArg: call.Call.Args[1], errIdx: 1})
+		}
+		// the trial decryption behind a small wrapper (decryptChunkLen(dst, firstBytes, key) error)
+		for _, cl := range eng.Calls(f) {
+			call, ok := cl.(*ssa.Call)
+			if !ok {
+				continue
+			}
+			w := call.Call.StaticCallee()
+			if w == nil || !c.P.InRepo(w) || len(w.Blocks) == 0 || w == f {
+				continue
+			}
+			l := eng.InnermostLoop(loops, call.Block())
+			if l == nil {
+				continue
+			}
+			inner, keyIdx, ctIdx, errIdx, isW := unpackWrapper(c, w)
+			if !isW || keyIdx >= len(call.Call.Args) {
+				continue
+			}
+			fromElem := c.P.AnyFrom(call.Call.Args[keyIdx], eng.OriginOpts{ThroughConvert: true, ThroughFieldLoad: true, ThroughIndex: true}, func(v ssa.Value) bool {
+				return strings.Contains(v.Type().String(), "list.Element")
+			})
+			if !fromElem {
+				continue
+			}
+			sl := searchLoop{fn: f, unpack: call, loop: l, inner: inner, keyArg: call.Call.Args[keyIdx], errIdx: errIdx}
+			if ctIdx >= 0 && ctIdx < len(call.Call.Args) {
+				sl.ctArg = call.Call.Args[ctIdx]
+			}
+			out = append(out, sl)
 		}
 	}
 	return out
@@ -342,7 +427,7 @@ func ruleSearch(c *Ctx, rule string, minLoops int) {
 	}
 	for _, sl := range sls {
 		key := short(sl.fn)
-		succ, _ := p.SuccessEdges(sl.fn, []ssa.CallInstruction{sl.unpack}, 1)
+		succ, _ := p.SuccessEdges(sl.fn, []ssa.CallInstruction{sl.unpack}, sl.errIdx)
 		if len(succ) == 0 {
 			c.CheckAt(rule, key+":unpack-result-tested", sl.unpack, false, "the result of the trial decryption is not tested")
 			continue
@@ -380,9 +465,12 @@ func ruleSearch(c *Ctx, rule string, minLoops int) {
 		hdr := sl.loop.Header
 		c.Check(rule, key+":traverses-whole-snapshot", blockPos(p, hdr), fullTraversal(sl.loop), "the search loop is not a full forward traversal (range, or index from 0 by 1 up to len) of the snapshot")
 		// the header length given to Unpack is computed from the same key that decrypts
-		keyArg := sl.unpack.Call.Args[2]
+		// (when the trial decryption sits in a wrapper, the prefix is computed inside it, from the key it is given: the same
+		// checks are made there, and "in this iteration" holds by construction)
+		keyArg := sl.inner.Call.Args[2]
+		wrapped := sl.inner != sl.unpack
 		// when the ciphertext handed to Unpack is a computed prefix (TCP), it must be computed in this very iteration
-		ctArg := p.Resolve(sl.unpack.Call.Args[1])
+		ctArg := p.Resolve(sl.inner.Call.Args[1])
 		prefixed := false
 		for _, o := range p.Origins(ctArg, eng.OriginOpts{ThroughConvert: true}) {
 			if so, isS := o.(*ssa.Slice); isS && so.High != nil {
@@ -393,7 +481,7 @@ func ruleSearch(c *Ctx, rule string, minLoops int) {
 		}
 		if prefixed {
 			so, isS := ctArg.(*ssa.Slice)
-			c.CheckAt(rule, key+":prefix-computed-per-key", sl.unpack, isS && sl.loop.Body[so.Block()], "the ciphertext prefix handed to the trial decryption is carried over from an earlier iteration (or computed outside the loop) instead of being sliced for the key being tried: keys whose cipher has a different salt size than the first key tried can never match")
+			c.CheckAt(rule, key+":prefix-computed-per-key", sl.unpack, isS && (wrapped || sl.loop.Body[so.Block()]), "the ciphertext prefix handed to the trial decryption is carried over from an earlier iteration (or computed outside the loop) instead of being sliced for the key being tried: keys whose cipher has a different salt size than the first key tried can never match")
 		}
 		if s, ok := ctArg.(*ssa.Slice); ok && s.High != nil {
 			okKey := true
@@ -574,7 +662,11 @@ func ruleKeyBytes(c *Ctx) {
 				}
 				nIn++
 				c.CheckAt("FIXEDREAD", short(f)+":read-before-search", sl.unpack, call.Parent() == f && eng.Dominates(call, sl.unpack), "the key search runs before the fixed-size read completed")
-				same := c.P.AnyFrom(sl.unpack.Call.Args[1], eng.Deep, func(v ssa.Value) bool {
+				if sl.ctArg == nil {
+					c.CheckAt("FIXEDREAD", short(f)+":search-gets-the-bytes-read", sl.unpack, false, "the trial decryption is not handed the bytes that were read")
+					continue
+				}
+				same := c.P.AnyFrom(sl.ctArg, eng.Deep, func(v ssa.Value) bool {
 					for _, b := range c.P.Origins(call.Call.Args[1], eng.Deep) {
 						if v == b {
 							return true
@@ -876,7 +968,7 @@ func ruleSaltSlice(c *Ctx, rule string) {
 		if kf.search == nil {
 			for _, sl := range findSearchLoops(c) {
 				if sl.fn == f {
-					if t, fl, base, ok := eng.FieldLoad(p.Resolve(sl.unpack.Call.Args[2])); ok && t == "service.CipherEntry" && fl == "CryptoKey" {
+					if t, fl, base, ok := eng.FieldLoad(p.Resolve(sl.keyArg)); ok && t == "service.CipherEntry" && fl == "CryptoKey" {
 						inlineKeys = append(inlineKeys, p.Origins(base, eng.Plain)...)
 					}
 				}
